@@ -72,13 +72,15 @@ fn hist<T: CellT + std::hash::Hash>(seed: u64, histories: usize, steps: usize, m
             if !m.handle.is_none() {
                 if faults && rng.chance(18) {
                     // C12: leak the drain at this stage of consumption; or C11: a destructor panics while it is dropped
-                    let (op, f) = if rng.chance(60) {
+                    let (op, f) = if rng.chance(50) {
                         ("d_forget", json!({"kind": "forget", "site": "none", "k": 0, "lie": "none"}))
-                    } else {
+                    } else if rng.chance(50) {
                         ("d_drop", json!({"kind": "panic_at", "site": "drop", "k": rng.below(4), "lie": "none"}))
+                    } else {
+                        (if rng.chance(50) { "d_fold" } else { "d_rfold" }, json!({"kind": "panic_at", "site": "closure", "k": rng.below(4), "lie": "none"}))
                     };
                     if f["kind"] == "panic_at" {
-                        tdverif::fault::arm(tdverif::fault::Site::Drop, f["k"].as_u64().unwrap() as u32);
+                        tdverif::fault::arm(tdverif::fault::Site::parse(f["site"].as_str().unwrap()).unwrap(), f["k"].as_u64().unwrap() as u32);
                     }
                     m.in_fault = true;
                     let r = m.call(op, &noarg, &[], LenMode::True);
@@ -91,7 +93,7 @@ fn hist<T: CellT + std::hash::Hash>(seed: u64, histories: usize, steps: usize, m
                     continue;
                 }
                 let op = ["d_next", "d_next_back", "d_len", "d_drop", "d_drop", "d_nth", "d_nth_back", "d_count", "d_last", "d_collect",
-                          "d_rcollect", "d_next", "d_next_back"][rng.below(13)];
+                          "d_rcollect", "d_next", "d_next_back", "d_fold", "d_rfold"][rng.below(15)];
                 if op == "d_nth" || op == "d_nth_back" {
                     let n = rng.below(4);
                     let a = json!({"n": n});
